@@ -327,6 +327,31 @@ func c17Time(c *lib.Ctx, idx uint64) {
 			}
 		}
 		c.Count("instants_encoded_in_zone_database_locations", int64(probes))
+		// IsBaseTime is a property of the instant as well: true only at second count zero,
+		// whatever location (name, offset) the time value is expressed in.
+		ib := 0
+		for _, x := range []uint32{0, 1, 59, 3600, 7200, 19800, 43200, 86399, 86400, 1000000000, 0x7FFFFFFF, 0x80000000, 0xFFFFFFFE} {
+			t := fit.VerifDecodeDateTime(x)
+			offs := []int{0, 1, -1, 3600, -3600, 7200, 19800, -19800, 43200, -43200, 50400, -50400}
+			if x < 1<<30 {
+				offs = append(offs, int(x), -int(x))
+			}
+			for _, off := range offs {
+				for _, name := range []string{"FITLOCAL", "UTC", "", "GMT", "Local", "X"} {
+					ib++
+					if got := fit.IsBaseTime(t.In(time.FixedZone(name, off))); got != (x == 0) {
+						report("IsBaseTime(second count %d expressed in zone %q, offset %d s) = %v", x, name, off, got)
+					}
+				}
+			}
+			for _, z := range lib.TZZones() {
+				ib++
+				if got := fit.IsBaseTime(t.In(z)); got != (x == 0) {
+					report("IsBaseTime(second count %d expressed in %v) = %v", x, z, got)
+				}
+			}
+		}
+		c.Count("is_base_time_probes_in_other_locations", int64(ib))
 		c.Sample("time", 1, map[string]interface{}{"seconds": 1000000000, "decoded": fit.VerifDecodeDateTime(1000000000).Format(time.RFC3339)})
 	}
 	c.EvalN(1 << 20)
